@@ -20,6 +20,8 @@ Definition o2 (f : Z -> Z -> option Z) : list Z -> list Z :=
 
 Definition table2 : list (string * (list Z -> list Z)) :=
   ("ctor_vect", fun l => ctor_vect l :: nil) :: ("cast_vect", fun l => cast_vect (A 0 l)) ::
+  ("isZero_I", b1 isZero_I) :: ("isZero_i64", b1 isZero_i64) :: ("isZero_u64", b1 isZero_u64) :: ("priv_sign", f1 priv_sign) ::
+  ("nonZero", fun l => b2z (negb (Z.eqb (nonZero (A 0 l)) 0)) :: nil) ::
   ("compare_I", f2 compare_I) :: ("absCompare_I", f2 absCompare_I) :: ("absCompare_d", f3 absCompare_d) ::
   ("absCompare_f", f3 absCompare_f) :: ("absCompare_u64", f2 absCompare_u64) :: ("absCompare_u32", f2 absCompare_u32) ::
   ("absCompare_i64", f2 absCompare_i64) :: ("absCompare_i32", f2 absCompare_i32) ::
@@ -46,7 +48,7 @@ Definition table2 : list (string * (list Z -> list Z)) :=
   ("fr_ge_f", b3 fr_ge_f) :: ("fr_ge_i32", b2 fr_ge_i32) :: ("fr_ge_i64", b2 fr_ge_i64) :: ("fr_ge_u64", b2 fr_ge_u64) ::
   ("fr_ge_u32", b2 fr_ge_u32) :: ("fr_le_d", b3 fr_le_d) :: ("fr_le_f", b3 fr_le_f) :: ("fr_le_i32", b2 fr_le_i32) ::
   ("fr_le_i64", b2 fr_le_i64) :: ("fr_le_u64", b2 fr_le_u64) :: ("fr_le_u32", b2 fr_le_u32) :: ("isOne", b1 isOne) ::
-  ("isMOne", b1 isMOne) :: ("nonZero", f1 nonZero) :: ("isZero_i16", b1 isZero_i16) :: ("isZero_i32", b1 isZero_i32) ::
+  ("isMOne", b1 isMOne) :: ("isZero_i16", b1 isZero_i16) :: ("isZero_i32", b1 isZero_i32) ::
   ("isZero_u16", b1 isZero_u16) :: ("isZero_u32", b1 isZero_u32) :: ("sign_m", f1 sign_m) :: ("sign_f", f1 sign_f) ::
   ("isleq_T", b2 isleq_T) :: ("abs_v", f1 abs_v) :: ("isOdd", b1 isOdd) :: ("opShl_u64", f2 opShl_u64) ::
   ("opShl_i32", f2 opShl_i32) :: ("opShl_u32", f2 opShl_u32) :: ("opShl_i64", f2 opShl_i64) ::
